@@ -15,17 +15,26 @@ LEVEL = "proof"
 
 MANIFEST = {
     "technique": "Coq proof (handler token expansion from the template shape, brace-parser lemma, helper methods as source-derived statement IR with a semantics, whole-machine run vs the table interpreter) + execution of the REAL generated C# text by a statement interpreter",
-    "text": ("Theorems C10_sem / C10_init (for every well-formed table, event sequence and guard oracle: constructing the machine -- constructor, Reset(), Enter<StateT>() "
+    "text": ("Theorems C10_threaded_safe / C10_sem_threaded (THREADED configuration, the default of the StateMachineThread user tag: Trigger<e> enqueues, the dispatch thread "
+             "dequeues and dispatches; both executed from the IR that translator/cstmpl.py parses out of the SM_THREAD_1 branches, one statement per atomic step, as an LTS under an "
+             "arbitrary schedule: under EVERY schedule what has been handled is the interpreter's run on a prefix of the Trigger order, and every schedule that lets the producer "
+             "finish and then gives the dispatch thread 2n+1 turns -- every fair one -- handles all n events: exactly the interpreter's callbacks and states). "
+             "Theorems C10_sem / C10_init (for every well-formed table, event sequence and guard oracle: constructing the machine -- constructor, Reset(), Enter<StateT>() "
              "executed from the IR that translator/cstmpl.py parses out of the templates -- runs the first state's entry hook exactly once, and every Trigger<e>, dispatched to "
              "the current state object's class, makes exactly the interpreter's callbacks and leaves estate at its state; a self transition is exit then entry), C10_handlers "
              "(per handler, Exit<S>()/Enter<T>() executed from their IR), C10_handlers_listed_only, C10_state_classes, C10_context_decls. Tie: handler token shape, helper-method "
              "IR and the Trigger<Event> shape regenerated into Gen/CsTmpl.v on every run; the real <Name>Internals.cs is tokenised and compared with CsSM.cs_handler; "
              "the real Context/Internals/StateMachine files are PARSED AND EXECUTED (translator/csmini.py: classes, fields, virtual dispatch, generics, new/is/as, "
              "if/return, assignments, calls; non-threaded preprocessor branch) under a recording context for random event sequences and guard bits and compared with a "
-             "Python reading of the property; extracted run_cs = extracted table_interp_quiet; declaration triples vs Decls.decls_file. "
+             "Python reading of the property; the SM_THREAD_1 branch of the same real files is executed too, under explicit cooperative schedules (csmini.Sched: "
+             "ConcurrentQueue/Queue/BlockingCollection, Thread, AutoResetEvent/ManualResetEvent(Slim), SemaphoreSlim, Monitor/lock as scheduled primitives with a yield point "
+             "before every operation; two random schedules per case and, every 40th case, all 2^7 decision prefixes on <= 3 events), oracle: callbacks = interpreter on the "
+             "Trigger order and nothing left queued when nothing can happen any more; every threaded run is replayed operation by operation on the extracted LTS "
+             "(CsThreads.trun); extracted run_cs = extracted table_interp_quiet; declaration triples vs Decls.decls_file. "
              "ENGINE BRIDGE (C10_handlers_engine, C10_handler_reads, C10_block_is_shipped): for every table with well-formed rows the file the engine model's pipeline (C16) writes from the transition block of the SHIPPED TEMPLATEInternals.cs (Model/CsRender.cs_block16: source-derived lines read into the template syntax, checked to render back) is one class text per cs_classes, one Trigger<e> override per cs_handlers, and the PER_GUARDTRANSITION lines of that override read one by one (without indentation) as the C# statements of the tokens cs_handler t s e; that text is found verbatim in the real <Name>Internals.cs on every case. WHOLE FILE (C10_file_engine): the shipped TEMPLATEInternals.cs as a whole lies in the C16 grammar (user-tag line, <<<TTT_BOOST_SML>>> line, per-state / per-event blocks, the transition block); for every table, interface and assignment of user tags admitted for it (cs_file_wf, evaluated per case) the pipeline's output is ref16 of the file, and the real <Name>Internals.cs is compared with it AS A WHOLE on every case."),
     "note": ("No C# compiler exists here: 'executed' means executed by the harness's own interpreter of the C# subset the generated files use (it refuses anything outside "
-             "the subset); member types and C# name lookup are not checked by anything. The threaded configuration (SM_THREAD_1: queue + dispatch thread) is not modelled; "
+             "the subset); member types and C# name lookup are not checked by anything. The threaded LTS has one producer and runs a dequeued event's handler atomically (producers touch only the queue and the signal); the generated machine has no "
+             "stop/Dispose, the dispatch thread is a background thread: termination is not part of the model. Primitives outside the scheduled set make the interpreter refuse. "
              "the class/handler nesting (PER_STATETRANSITION / PER_EVENTTRANSITION) is modelled in closed form, its template shape is checked by the translator."),
 }
 RULE = ("random well-formed tables (as C08) incl. colliding signature concatenations; C# primitive member types with (trailing) defaults; StateMachineThread 0/1/absent; "
@@ -33,7 +42,7 @@ RULE = ("random well-formed tables (as C08) incl. colliding signature concatenat
         "every listed (state,event) handler additionally executed in isolation under six guard vectors. non-trivial = some handler has more than one row or a row "
         "without guard/target; distinct = (table, interface)")
 ASSUMPTIONS = ["wf_table T (identifier domain as C08)", "defaults only on a trailing run of an event's members; member types are C# primitive types",
-               "non-threaded configuration (the #else branch of SM_THREAD_1) for the executed behaviour",
+               "threaded configuration: one producer thread; fairness = the dispatch thread gets 2n+1 turns after the producer's n Triggers",
                "identifiers are not C# keywords / names fixed by the template (IDispatchable, <Name>State ...)"]
 TRUSTED = ["Coq 8.16.1 kernel (coqc; coqchk in the thorough tier)", "axioms: none",
            "translator/cstmpl.py + translator/csmini.py (regex classification of the PER_GUARDTRANSITION lines and of the class/handler nesting; parser of the helper methods into the statement IR; fail closed)",
